@@ -324,7 +324,7 @@ class C01(World):
         elif kind in ("fix_normals", "fix_inversion"):
             op["multibody"] = rng.choice([None, True, False])
         elif kind == "convert_units":
-            op["to"] = rng.choice(["mm", "in", "m", "ft"])
+            op["to"] = rng.choice(["mm", "in", "m", "feet"])
         elif kind == "edit_vertices":
             op.update({"route": rng.choice(EDIT_V_ROUTES), "d": round(rng.uniform(0.1, 0.6) * rng.choice([-1, 1]), 4), "i": rng.randrange(10**6), "j": rng.randrange(3), "k": rng.randint(1, 5)})
         elif kind == "view_write":
@@ -332,9 +332,9 @@ class C01(World):
         elif kind == "edit_faces":
             op.update({"route": rng.choice(EDIT_F_ROUTES), "i": rng.randrange(10**6), "j": rng.randrange(3), "k": rng.randrange(10**6)})
         elif kind == "assign_vertices":
-            op.update({"cls": rng.choice(["perturb", "append", "same_values", "scaled"]), "d": 0.2})
+            op.update({"cls": rng.choice(["perturb", "append", "same_values", "scaled", "tracked_prehashed", "tracked_prehashed"]), "d": 0.2})
         elif kind == "assign_faces":
-            op.update({"cls": rng.choice(["permute", "subset", "flip_one", "same_values", "reverse_all", "append_dup"])})
+            op.update({"cls": rng.choice(["permute", "subset", "flip_one", "same_values", "reverse_all", "append_dup", "tracked_prehashed"])})
         elif kind == "density":
             op["value"] = rng.choice([0.5, 3.0, 7.25])
         elif kind == "center_mass":
@@ -526,7 +526,7 @@ class C01(World):
                 raise Inapplicable()
             V = np.array(main.vertices, dtype=np.float64, copy=True)
             c = op["cls"]
-            if c == "perturb":
+            if c in ("perturb", "tracked_prehashed"):
                 V = V + r.uniform(-op["d"], op["d"], V.shape)
             elif c == "append":
                 V = np.vstack([V, V[:2] + 0.37])
@@ -538,7 +538,7 @@ class C01(World):
                 raise Inapplicable()
             Fc = np.array(main.faces, dtype=np.int64, copy=True)
             c = op["cls"]
-            if c == "permute":
+            if c in ("permute", "tracked_prehashed"):
                 Fc = Fc[r.permutation(nf)]
             elif c == "subset":
                 Fc = Fc[: max(1, nf - 2)]
@@ -663,9 +663,24 @@ class C01(World):
             elif route == "slice_assign":
                 f[i:] = f[i:][:, ::-1].copy()
         elif k == "assign_vertices":
-            m.vertices = a["V"].copy()
+            if op["cls"] == "tracked_prehashed":
+                # an array object that is already tracked and already hashed (e.g. taken from another mesh, or held and restored)
+                from trimesh.caching import tracked_array
+
+                t = tracked_array(a["V"].copy())
+                t.__hash__()
+                m.vertices = t
+            else:
+                m.vertices = a["V"].copy()
         elif k == "assign_faces":
-            m.faces = a["F"].copy()
+            if op["cls"] == "tracked_prehashed":
+                from trimesh.caching import tracked_array
+
+                t = tracked_array(a["F"].copy())
+                t.__hash__()
+                m.faces = t
+            else:
+                m.faces = a["F"].copy()
         elif k == "density":
             m.density = op["value"]
         elif k == "center_mass":
@@ -721,7 +736,7 @@ class C01(World):
         k = op["op"]
         M = None
         if k == "convert_units" and st["units"] is not None:
-            to_m = {"mm": 0.001, "in": 0.0254, "m": 1.0, "ft": 0.3048}
+            to_m = {"mm": 0.001, "in": 0.0254, "m": 1.0, "feet": 0.3048}
             M = mx.hom(np.eye(3) * (to_m[st["units"]] / to_m[op["to"]]), None)
         if k == "rezero" and len(pre[1]):
             ref = pre[0][np.unique(pre[1].reshape(-1))]
